@@ -976,15 +976,19 @@ int main(int argc, char** argv)
     else
     {
         // C01 (a): L-BFGS / BFGS on the quadratic class, epsilon = 1e-8
-        const long nq = thorough ? 3000 : 160;
+        // the last `nstiff` instances are a targeted sub-family of the class: stiff AND well conditioned (curvature scale
+        // 1e2..1e3, kappa 2..30, n >= 8) -- where a quasi-Newton update whose scaling is only right for unit curvature degrades
+        const long nstiff = thorough ? 1500 : 240;
+        const long nq     = (thorough ? 3000 : 160) + nstiff;
         for (long k = 0; k < nq; ++k, ++id)
         {
             vh::rng_t r(seed * 1000003ULL + static_cast<uint64_t>(id) * 7919ULL + 17);
             if (only >= 0 && id != only) continue;
-            const int    n     = static_cast<int>(r.range(1, 16));
+            const bool   stiff = k >= nq - nstiff;
+            const int    n     = stiff ? static_cast<int>(r.range(8, 16)) : static_cast<int>(r.range(1, 16));
             // boundary cases of the class: kappa in {1, 1e3}, scale in {1e-3, 1e3}
-            const double kappa = (k % 7 == 0) ? 1e3 : ((k % 7 == 1) ? 1.0 : log_uniform(r, 1, 1e3));
-            const double s     = (k % 5 == 0) ? 1e3 : ((k % 5 == 1) ? 1e-3 : log_uniform(r, 1e-3, 1e3));
+            const double kappa = stiff ? log_uniform(r, 2, 30) : ((k % 7 == 0) ? 1e3 : ((k % 7 == 1) ? 1.0 : log_uniform(r, 1, 1e3)));
+            const double s     = stiff ? log_uniform(r, 1e2, 1e3) : ((k % 5 == 0) ? 1e3 : ((k % 5 == 1) ? 1e-3 : log_uniform(r, 1e-3, 1e3)));
             auto         q     = quad_function_t{r, n, kappa, s, true};
             run_cfg_t    cfg;
             cfg.id     = id;
